@@ -150,6 +150,19 @@ def run_case(vk, case):
                     if s1["remaining"] != names.ranking(pl["e"].get_elected()) or s1["eliminated"] != names.ranking(pl["e"].get_remaining()):
                         fail("alaska-stage-one", f"{s1}")
                     tags.append("alaska:components-compared")
+    if comp == "Alaska" and res["status"] == "ok":
+        # whatever was drawn: the STV stage runs on the profile that keeps the finalists RECORDED in round 1, so no
+        # later round can list anybody else (holds with random tiebreaks too, where the component comparison above
+        # cannot be made because the components would draw again)
+        st = names.states(res["e"])
+        if len(st) > 1:
+            finalists = {c for g in st[1]["remaining"] for c in g}
+            for s in st[2:]:
+                listed = {c for k in ("remaining", "elected", "eliminated") for g in s[k] for c in g}
+                if not listed <= finalists:
+                    fail("alaska-later-round-lists-a-non-finalist",
+                         f"round {s['round']}: {sorted(listed - finalists)} not among the finalists {sorted(finalists)} of round 1")
+                    break
     req = None
     expect = None
     random_tb_calls = [c for c in res["log"].calls if c[0] == "sample" and c[1] and isinstance(c[1][0], str)]
